@@ -594,6 +594,44 @@ def _np_empty(interp, args, kwargs):
     return fresh_array(shape, dt, "empty", interp)
 
 
+def _np_const(value):
+    """np.zeros / np.ones / np.full: every element is the given constant (np.full takes it as 2nd argument)."""
+    def fn(interp, args, kwargs):
+        shape = args[0] if isinstance(args[0], tuple) else (args[0],)
+        rest = list(args[1:])
+        v = value
+        if v is None:
+            v = kwargs["fill_value"] if "fill_value" in kwargs else rest.pop(0)
+        dt = dtype_of(kwargs.get("dtype", rest[0] if rest else Ext("builtin:float")))
+        if dt in FLOAT_DTYPES:
+            e = NAN if isinstance(v, NanConst) else to_fpix(v)
+        elif dt == "bool":
+            e = bool(v) if isinstance(v, (int, bool)) else v
+        else:
+            if isinstance(v, NanConst):
+                raise PyRaise("ValueError", origin="cannot convert float NaN to integer")
+            e = v
+        return NdArr(tuple(shape), dt, lambda idx: e, "const")
+    return fn
+
+
+def _np_const_like(value):
+    def fn(interp, args, kwargs):
+        a = args[0]
+        if not isinstance(a, NdArr):
+            raise OutOfSubset("np.*_like of a non-array")
+        rest = list(args[1:])
+        v = value
+        if v is None:
+            v = kwargs["fill_value"] if "fill_value" in kwargs else rest.pop(0)
+        dt = dtype_of(kwargs["dtype"]) if "dtype" in kwargs else a.dtype
+        if v == "empty":
+            return fresh_array(a.shape, dt, "empty_like", interp)
+        kw = {"dtype": Dtype(dt)}
+        return _np_const(v)(interp, [tuple(a.shape)], kw)
+    return fn
+
+
 def _np_isnan(interp, args, kwargs):
     a = args[0]
     if isinstance(a, NdArr):
@@ -765,6 +803,13 @@ NP_FUNCS = {
     "np.radians": _np_radians,
     "np.roll": _np_roll,
     "np.empty": _np_empty,
+    "np.zeros": _np_const(0),
+    "np.ones": _np_const(1),
+    "np.full": _np_const(None),
+    "np.zeros_like": _np_const_like(0),
+    "np.ones_like": _np_const_like(1),
+    "np.full_like": _np_const_like(None),
+    "np.empty_like": _np_const_like("empty"),
     "np.isnan": _np_isnan,
     "np.all": _np_all_any("all"),
     "np.any": _np_all_any("any"),
